@@ -57,10 +57,13 @@ DevShift == {"EndpointShift"}
 DevOrder == {"ConformerOrderLost"}
 DevStaleBond == {"StaleBondTokenCache"}
 DevStaleAtom == {"StaleAtomTokenCache"}
+DevParentIdx == {"EndpointsViaParentIndex"}
 EditB == {"Double", "Aromatic"}
 NoPhase == {}
+AliasTwo == {"promol", "dropped"}     \* model checking: "struct" behaves like "promol", "view" changes no bookkeeping
 AfterCycle == {5}      \* model checking: edit after a complete cycle
-AfterWrite == {2}      \* generation: edit right after the first write (the harness completes the cycle first)
+AfterWrite == {1, 2}   \* generation: edits before or right after the first write (the harness completes the first cycle,
+                       \* then applies them to the same object and writes it again)
 
 View == sv
 (* generation: one line per built object (recipe for the harness + the abstract object the spec expects it to be) *)
